@@ -28,4 +28,7 @@ def run(ctx):
     obs += cp.at_prelude_terminators_rule(ctx, 'C09')
     # output offsets used to replay a prefixed prelude are byte offsets of the output (shared with C08 / C17)
     obs += cp.capture_offsets_rule(ctx, 'C09')
+    # every rewrite works on tokens: no source text is copied into the output (wave 10; shared by the stylesheet packs)
+    obs += cp.tokens_only_rule(ctx, 'C09')
+    obs += cp.state_counters_rule(ctx, 'C09')
     return obs
